@@ -29,6 +29,7 @@ REQUIRED_THEOREMS = [
     "C09_renyi_nonneg_pure_rbm", "C09_renyi_nonneg_pure_rbm_pos",   # second audit C09-A1: hypothesis-free instances for the RBM wavefunctions
     # extension round X3: the batch mean on B >= 2 i.i.d. rows is unbiased; a one-row batch is paired with itself (value 1, biased)
     "C09_batch_list_form", "C09_batch_mean_unbiased", "C09_single_row", "C09_single_row_mean", "C09_single_row_biased",
+    "C09_statistics_unbiased_generic", "C09_statistics_unbiased",   # late theorems L4: SWAP through the statistics loop
 ]
 THEOREMS = {
     "apply": "C09_purity (+ C09_no_mutation: run = per-pair value on (samples[i], samples[(i-1) mod B]); C09_region)",
